@@ -56,13 +56,13 @@
 (***************************************************************************)
 EXTENDS Naturals, Sequences, FiniteSets, TLC
 
-CONSTANTS MaxL, MaxCS, Ws, Pres, Faults, Wheres, Kills, Deviations
+CONSTANTS MaxL, MaxCS, Ws, Pres, Faults, Wheres, Kills, BufSizes, Deviations
 
 NP == 2                                   \* patches / given centres
 
-VARIABLES cfg, mpc, wpc, c, pending, q, file, dir, ids, wexit, outcome, loaded, werr
+VARIABLES cfg, mpc, wpc, c, pending, q, file, buf, dir, ids, wexit, outcome, loaded, werr
 
-vars == <<cfg, mpc, wpc, c, pending, q, file, dir, ids, wexit, outcome, loaded, werr>>
+vars == <<cfg, mpc, wpc, c, pending, q, file, buf, dir, ids, wexit, outcome, loaded, werr>>
 
 Dev(d) == d \in Deviations
 L == cfg.L
@@ -87,14 +87,14 @@ Part(k, j) == { r \in ChunkRecs(k) : PartOf(k, r) = j }
 FaultRec == (cfg.FaultChunk - 1) * CS + 1
 
 Init == /\ \E l \in 1..MaxL, cs \in 1..MaxCS, w \in Ws, pre \in Pres, ow \in BOOLEAN,
-              f \in Faults, ec \in BOOLEAN, wh \in Wheres, kl \in Kills :
+              f \in Faults, ec \in BOOLEAN, wh \in Wheres, kl \in Kills, bs \in BufSizes :
              /\ (f > 0 => f <= (l + cs - 1) \div cs)          \* fault in an existing chunk
              /\ (f = 0 => wh = "reader")
              /\ (kl # "none" => (f = 0 /\ ~ec /\ w > 1))
              /\ cfg = [L |-> l, CS |-> cs, W |-> w, Pre |-> pre, Ow |-> ow, FaultChunk |-> f, EmptyCentre |-> ec,
-                       Where |-> wh, Kill |-> kl]
+                       Where |-> wh, Kill |-> kl, Buf |-> bs]
         /\ mpc = "start" /\ wpc = "notstarted" /\ c = 1 /\ pending = {} /\ q = <<>>
-        /\ file = [pp \in 0..(NP - 1) |-> {}]
+        /\ file = [pp \in 0..(NP - 1) |-> {}] /\ buf = [pp \in 0..(NP - 1) |-> {}]
         /\ dir = cfg.Pre /\ ids = (cfg.Pre = "old")
         /\ wexit = 0 /\ outcome = "none" /\ loaded = "none" /\ werr = FALSE
 
@@ -109,8 +109,18 @@ InitDir ==
       [] dir = "file" -> "ERR"                            \* rmtree of a file: NotADirectoryError
       [] OTHER -> "ERR"
 
-Store(parts) ==      \* writer.process_patches: append every record to its patch file
-    [pp \in 0..(NP - 1) |-> file[pp] \cup { r \in parts : PatchOf(r) = pp }]
+(* writer.process_patches -> PatchWriter.process_chunk: the records of a patch are appended to
+   its in-memory shards; the shards are written out when they hold >= cfg.Buf records
+   (Buf = 0 stands for the library's buffersize = -1: flush after every chunk) *)
+Buffered(parts) == [pp \in 0..(NP - 1) |-> buf[pp] \cup { r \in parts : PatchOf(r) = pp }]
+Flushes(b, pp) == Cardinality(b[pp]) >= cfg.Buf
+Store(parts) ==
+    LET b == Buffered(parts) IN
+      /\ file' = [pp \in 0..(NP - 1) |-> IF Flushes(b, pp) THEN file[pp] \cup b[pp] ELSE file[pp]]
+      /\ buf' = [pp \in 0..(NP - 1) |-> IF Flushes(b, pp) THEN {} ELSE b[pp]]
+(* PatchWriter.close() of every writer (finalize): whatever is buffered reaches the file *)
+FlushAll == /\ file' = [pp \in 0..(NP - 1) |-> file[pp] \cup buf[pp]]
+            /\ buf' = [pp \in 0..(NP - 1) |-> {}]
 
 (* finalize(): close files, raise for a centre without data, write patch_ids.bin *)
 HasEmptyPatch == cfg.EmptyCentre \/ \E pp \in 0..(NP - 1) : { r \in Records : PatchOf(r) = pp } = {}
@@ -123,11 +133,11 @@ SeqInit ==
     /\ IF InitDir = "ERR"
          THEN /\ mpc' = "raised" /\ outcome' = "raised" /\ UNCHANGED <<dir, ids>>
          ELSE /\ dir' = "building" /\ ids' = FALSE /\ mpc' = "read" /\ UNCHANGED outcome
-    /\ UNCHANGED <<cfg, wpc, c, pending, q, file, wexit, loaded, werr>>
+    /\ UNCHANGED <<cfg, wpc, c, pending, q, file, buf, wexit, loaded, werr>>
 
 SeqChunk ==
     /\ W = 1 /\ mpc = "read" /\ c <= NC /\ cfg.FaultChunk # c
-    /\ file' = Store(ChunkRecs(c))
+    /\ Store(ChunkRecs(c))
     /\ c' = c + 1
     /\ UNCHANGED <<cfg, mpc, wpc, pending, q, dir, ids, wexit, outcome, loaded, werr>>
 
@@ -136,26 +146,28 @@ SeqFault ==        \* DataChunk.create raises inside the `with CatalogWriter` bl
     /\ mpc' = "raised" /\ outcome' = "raised"
     /\ ids' = (Dev("FinalizeOnException") /\ FinalOK)          \* __exit__ -> finalize()
     /\ dir' = IF Dev("FinalizeOnException") /\ FinalOK THEN "complete" ELSE dir
-    /\ UNCHANGED <<cfg, wpc, c, pending, q, file, wexit, loaded, werr>>
+    /\ IF Dev("FinalizeOnException") THEN FlushAll ELSE UNCHANGED <<file, buf>>
+    /\ UNCHANGED <<cfg, wpc, c, pending, q, wexit, loaded, werr>>
 
 SeqFinal ==
     /\ W = 1 /\ mpc = "read" /\ c > NC
     /\ IF FinalOK
          THEN /\ ids' = TRUE /\ dir' = "complete" /\ mpc' = "load" /\ UNCHANGED outcome
          ELSE /\ mpc' = "raised" /\ outcome' = "raised" /\ UNCHANGED <<ids, dir>>
-    /\ UNCHANGED <<cfg, wpc, c, pending, q, file, wexit, loaded, werr>>
+    /\ FlushAll                                  \* finalize() closes every patch writer first
+    /\ UNCHANGED <<cfg, wpc, c, pending, q, wexit, loaded, werr>>
 
 ---------------------------------------------------------------------------
 (* multiprocessing variant: main process *)
 MStart ==
     /\ W > 1 /\ mpc = "start"
     /\ wpc' = "init" /\ mpc' = "read"
-    /\ UNCHANGED <<cfg, c, pending, q, file, dir, ids, wexit, outcome, loaded, werr>>
+    /\ UNCHANGED <<cfg, c, pending, q, file, buf, dir, ids, wexit, outcome, loaded, werr>>
 
 MRead ==
     /\ W > 1 /\ mpc = "read" /\ c <= NC /\ ~(cfg.FaultChunk = c /\ cfg.Where = "reader")
     /\ pending' = 1..W /\ mpc' = "map"
-    /\ UNCHANGED <<cfg, wpc, c, q, file, dir, ids, wexit, outcome, loaded, werr>>
+    /\ UNCHANGED <<cfg, wpc, c, q, file, buf, dir, ids, wexit, outcome, loaded, werr>>
 
 WorkerFaultAt(j) == cfg.Where = "worker" /\ cfg.FaultChunk = c /\ FaultRec \in Part(c, j)
 
@@ -163,23 +175,23 @@ Work(j) ==         \* pool task j: split_into_patches(part) ; queue.put(patches)
     /\ mpc = "map" /\ j \in pending /\ ~WorkerFaultAt(j)
     /\ q' = Append(q, [k |-> "part", recs |-> Part(c, j)])
     /\ pending' = pending \ {j}
-    /\ UNCHANGED <<cfg, mpc, wpc, c, file, dir, ids, wexit, outcome, loaded, werr>>
+    /\ UNCHANGED <<cfg, mpc, wpc, c, file, buf, dir, ids, wexit, outcome, loaded, werr>>
 
 WorkFail(j) ==     \* pool task j raises before it puts anything; the other tasks still run
     /\ mpc = "map" /\ j \in pending /\ WorkerFaultAt(j)
     /\ pending' = pending \ {j} /\ werr' = TRUE
-    /\ UNCHANGED <<cfg, mpc, wpc, c, q, file, dir, ids, wexit, outcome, loaded>>
+    /\ UNCHANGED <<cfg, mpc, wpc, c, q, file, buf, dir, ids, wexit, outcome, loaded>>
 
 MMapDone ==        \* pool.map returns, or re-raises a task's exception, once ALL tasks finished
     /\ mpc = "map" /\ pending = {}
     /\ IF werr THEN mpc' = "mapfailed" /\ UNCHANGED c
                ELSE c' = c + 1 /\ mpc' = "read"
-    /\ UNCHANGED <<cfg, wpc, pending, q, file, dir, ids, wexit, outcome, loaded, werr>>
+    /\ UNCHANGED <<cfg, wpc, pending, q, file, buf, dir, ids, wexit, outcome, loaded, werr>>
 
 MPutEOQ ==
     /\ W > 1 /\ mpc = "read" /\ c > NC
     /\ q' = Append(q, [k |-> "EOQ", recs |-> {}]) /\ mpc' = "join"
-    /\ UNCHANGED <<cfg, wpc, c, pending, file, dir, ids, wexit, outcome, loaded, werr>>
+    /\ UNCHANGED <<cfg, wpc, c, pending, file, buf, dir, ids, wexit, outcome, loaded, werr>>
 
 MFault ==          \* exception inside `with WriterProcess`: __exit__ must still end the writer
     /\ W > 1
@@ -190,14 +202,14 @@ MFault ==          \* exception inside `with WriterProcess`: __exit__ must still
          ELSE /\ wpc' = "exited"                            \* ideal: process.terminate(), wherever it is
               /\ wexit' = IF wpc = "exited" THEN wexit ELSE 15
     /\ mpc' = "joinexc"
-    /\ UNCHANGED <<cfg, c, pending, q, file, dir, ids, outcome, loaded, werr>>
+    /\ UNCHANGED <<cfg, c, pending, q, file, buf, dir, ids, outcome, loaded, werr>>
 
 MJoin ==
     /\ mpc \in {"join", "joinexc"} /\ wpc = "exited"
     /\ IF mpc = "joinexc" \/ (wexit # 0 /\ ~Dev("WriterErrorVanishes"))
          THEN mpc' = "raised" /\ outcome' = "raised"
          ELSE mpc' = "load" /\ UNCHANGED outcome
-    /\ UNCHANGED <<cfg, wpc, c, pending, q, file, dir, ids, wexit, loaded, werr>>
+    /\ UNCHANGED <<cfg, wpc, c, pending, q, file, buf, dir, ids, wexit, loaded, werr>>
 
 ---------------------------------------------------------------------------
 (* multiprocessing variant: writer process *)
@@ -206,23 +218,23 @@ WInit ==
     /\ IF InitDir = "ERR"
          THEN /\ wpc' = "exited" /\ wexit' = 1 /\ UNCHANGED <<dir, ids>>
          ELSE /\ dir' = "building" /\ ids' = FALSE /\ wpc' = "get" /\ UNCHANGED wexit
-    /\ UNCHANGED <<cfg, mpc, c, pending, q, file, outcome, loaded, werr>>
+    /\ UNCHANGED <<cfg, mpc, c, pending, q, file, buf, outcome, loaded, werr>>
 
 WGet ==
     /\ wpc = "get" /\ q # <<>>
     /\ LET item == Head(q) IN
          CASE item.k = "EOQ" ->
                 IF FinalOK
-                  THEN /\ ids' = TRUE /\ dir' = "complete" /\ wpc' = "exited" /\ UNCHANGED <<wexit, file>>
-                  ELSE /\ wpc' = "exited" /\ wexit' = 1 /\ UNCHANGED <<ids, dir, file>>
+                  THEN /\ ids' = TRUE /\ dir' = "complete" /\ wpc' = "exited" /\ FlushAll /\ UNCHANGED wexit
+                  ELSE /\ wpc' = "exited" /\ wexit' = 1 /\ FlushAll /\ UNCHANGED <<ids, dir>>
            [] item.k = "part" /\ cfg.Where = "writer" /\ cfg.FaultChunk > 0 /\ FaultRec \in item.recs ->
                 \* process_patches raises: CatalogWriter.__exit__ must not finalise, the process dies
                 /\ wpc' = "exited" /\ wexit' = 1
                 /\ ids' = (Dev("FinalizeOnException") /\ FinalOK)
                 /\ dir' = IF Dev("FinalizeOnException") /\ FinalOK THEN "complete" ELSE dir
-                /\ UNCHANGED file
+                /\ IF Dev("FinalizeOnException") THEN FlushAll ELSE UNCHANGED <<file, buf>>
            [] OTHER ->
-                /\ file' = Store(item.recs) /\ UNCHANGED <<wpc, wexit, ids, dir>>
+                /\ Store(item.recs) /\ UNCHANGED <<wpc, wexit, ids, dir>>
     /\ q' = Tail(q)
     /\ UNCHANGED <<cfg, mpc, c, pending, outcome, loaded, werr>>
 
@@ -231,7 +243,7 @@ WKill ==
     /\ \/ cfg.Kill = "init" /\ wpc = "init"
        \/ cfg.Kill = "get" /\ wpc = "get"
     /\ wpc' = "exited" /\ wexit' = 9
-    /\ UNCHANGED <<cfg, mpc, c, pending, q, file, dir, ids, outcome, loaded, werr>>
+    /\ UNCHANGED <<cfg, mpc, c, pending, q, file, buf, dir, ids, outcome, loaded, werr>>
 
 ---------------------------------------------------------------------------
 (* load_patches: open whatever is at the path *)
@@ -241,7 +253,7 @@ Load ==
          THEN /\ loaded' = (IF dir = "old" THEN "old" ELSE "new")
               /\ outcome' = "success" /\ mpc' = "done"
          ELSE /\ outcome' = "raised" /\ mpc' = "raised" /\ UNCHANGED loaded    \* patch info file not found
-    /\ UNCHANGED <<cfg, wpc, c, pending, q, file, dir, ids, wexit, werr>>
+    /\ UNCHANGED <<cfg, wpc, c, pending, q, file, buf, dir, ids, wexit, werr>>
 
 Done == mpc \in {"done", "raised"}
 
@@ -274,6 +286,9 @@ ExactOnSuccess == (outcome = "success") => (Exact /\ loaded = "new")
 FailStop == Done => (IF Faulty THEN outcome = "raised" ELSE outcome = "success" /\ Exact)
 (* ... never a hang (TLC deadlock check + this liveness property) *)
 Termination == <>Done
+(* nothing is written twice and nothing is silently dropped while the writer is alive:
+   what was handed to the writer is in a file or in its buffer *)
+BufferedOrWritten == (outcome = "success") => \A pp \in 0..(NP - 1) : buf[pp] = {}
 (* ... a pre-existing path is untouched unless overwriting a catalog was requested *)
 UntouchedWithoutOverwrite ==
     (cfg.Pre \in {"old", "foreign", "file"} /\ ~cfg.Ow) => dir = cfg.Pre
@@ -283,7 +298,8 @@ OnlyCatalogsDeleted == (cfg.Pre \in {"foreign", "file"}) => dir = cfg.Pre
 NoOpenableDirAfterFailure == (outcome = "raised" /\ dir # "old") => ~ids
 
 TypeOK == /\ c \in 1..(NC + 1) /\ pending \subseteq 1..4 /\ werr \in BOOLEAN
-          /\ \A pp \in 0..(NP - 1) : file[pp] \subseteq Records
+          /\ \A pp \in 0..(NP - 1) : file[pp] \subseteq Records /\ buf[pp] \subseteq Records /\ file[pp] \cap buf[pp] = {}
+          /\ \A pp \in 0..(NP - 1) : cfg.Buf > 0 => Cardinality(buf[pp]) < cfg.Buf
 
 PrintDone == Done => PrintT(<<"done", cfg, outcome, loaded, dir, ids, wexit = 9>>)
 =============================================================================
